@@ -238,6 +238,9 @@ def c10(ctx):
             for prefix, what in OTHER_SOURCES:
                 if d.startswith(prefix) or c["def"].startswith(prefix):
                     rep.fail("C10.R2", "source::%s::%s" % (common.top_fn(F, fn).path, c["name"]), "%s uses %s (%s): a nondeterminism source" % (fn.path, d, what), fn.loc(t["line"]))
+            if (d.startswith("colored::") or c["def"].startswith("colored::")) and not fn.file.startswith("src/cli/"):
+                rep.fail("C10.R2", "source::%s::%s" % (common.top_fn(F, fn).path, c["name"]),
+                         "%s styles text with %s outside the command-line layer: whether escape codes are emitted depends on the terminal and on environment variables (NO_COLOR, CLICOLOR ...), so a library result is not a function of program and input" % (fn.path, d), fn.loc(t["line"]))
             if (d.startswith("std::env::") or c["def"].startswith("std::env::")) and not c["def"].startswith(ENV_OK):
                 rep.fail("C10.R2", "source::%s::%s" % (common.top_fn(F, fn).path, c["name"]), "%s reads the process environment (%s)" % (fn.path, d), fn.loc(t["line"]))
             # observable Debug output
